@@ -547,3 +547,38 @@ V("c07-eq-suppress", ["C07", "C09", "C10", "C11", "C18"], "E", SII, '''        t
 ''', '''        with contextlib.suppress(CachingError):
             return caching.read_cache(mapper, path, records_per_chunk=records_per_chunk)
 ''', more=[(SII, "from ceos_alos2.array import Array", "import contextlib\n\nfrom ceos_alos2.array import Array")])
+
+# ---------------------------------------------------------------- round 7
+VIO = "ceos_alos2/volume_directory/io.py"
+LFD = "ceos_alos2/sar_leader/file_descriptor.py"
+V("c06-chunks-from-columns", "C06", "M", ARR, "normalize_chunksize(self.records_per_chunk, self.shape[0])", "normalize_chunksize(self.records_per_chunk, self.shape[1])", "C06-Q10")
+V("c06-eq-inline-min", "C06", "E", ARR, "            self.records_per_chunk = normalize_chunksize(self.records_per_chunk, self.shape[0])",
+  "            rpc = self.records_per_chunk\n            self.records_per_chunk = self.shape[0] if rpc == -1 or rpc > self.shape[0] else rpc")
+V("c07-writer-other-name", "C07", "M", CAC, "def create_cache(mapper, path, data):\n    local = local_cache_location(mapper.root, path)", "def create_cache(mapper, path, data):\n    local = local_cache_location(mapper.root, path + \".v2\")", "C07-N3")
+V("c07-eafp-lookup", "C07", "M", CAC, '''    if remote in mapper:
+        return decode(mapper[remote].decode(), records_per_chunk=records_per_chunk)
+
+    raise CachingError(f"no cache found for {path}")''', '''    try:
+        content = mapper[remote]
+    except KeyError as e:
+        raise CachingError(f"no cache found for {path}") from e
+
+    return decode(content.decode(), records_per_chunk=records_per_chunk)''', "permission denied")
+V("c07-eq-write-inline", ["C07", "C10", "C09"], "E", CAC, "    encoded = encode(data)\n\n    local.write_text(encoded)", "    local.write_text(encode(data))")
+V("c10-index-next-to-image", "C10", "M", CAC, "    local.write_text(encoded)", "    local.write_text(encoded)\n    mapper[remote_cache_location(mapper.root, path)] = encoded.encode()", "C10-W9")
+V("c15-product-id-not-decoded", "C15", "M", SUM, '        "ProductID": decoders.decode_product_id,', '        "ProductID": passthrough,', "C15-L10")
+V("c16-contents-checked", "C16", "M", VIO, "    return transform_record(metadata)", '''    group = transform_record(metadata)
+    if path.startswith("VOL-") and path.rsplit("-", 1)[-1] not in group.attrs.get("product_id", path):
+        raise ValueError(f"{path}: the volume directory describes another product")
+
+    return group''', "C16-V7")
+V("c18-leader-error-wrapped", "C18", "M", IOO, '    sar_leader = open_sar_leader(mapper, filenames["sar_leader"])', '''    try:
+        sar_leader = open_sar_leader(mapper, filenames["sar_leader"])
+    except OSError as e:
+        raise RuntimeError(f"incomplete product: {e}") from e''', "C18-E9")
+V("c19-second-wrapper", "C19", "M", XRP, "    variables = {name: to_variable(var) for name, var in group.variables.items()}\n", '''    variables = {name: to_variable(var) for name, var in group.variables.items()}
+    if "data" in group.variables:
+        variables["quicklook"] = to_variable(group.variables["data"])
+''', "C19-T7")
+V("c20-count-in-padding", "C20", "M", LFD, '    "blanks2" / PaddedString(230),', '    "number_of_extra_records" / AsciiInteger(6),\n    "blanks2" / PaddedString(224),', "padding")
+V("c20-eq-padding-split", "C20", "E", LFD, '    "blanks2" / PaddedString(230),', '    "blanks2" / PaddedString(6),\n    "blanks3" / PaddedString(224),')
